@@ -369,6 +369,11 @@ def family_cases(ctx):
                                                 % (4 * i + 1, i, name, i, 4 * i + 2, i, name, i, 4 * i + 3, i, i, 4 * i + 4, i, i) for i in range(k)) + "}\n"
             fs["prog.thrift"] = root
             add("samename-%s-%d" % (name, k), fs)
+    # service inheritance across files where each file includes only its parent's file
+    add("svc-chain-4-files", {"prog.thrift": 'include "./mid.thrift"\nservice Top extends mid.Mid { void top(1: i32 a) }\n',
+                              "mid.thrift": 'include "./sub/low.thrift"\nstruct MidArg { 1: optional i32 x }\nservice Mid extends low.Low { MidArg mid(1: MidArg a) }\n',
+                              "sub/low.thrift": 'include "../base.thrift"\nservice Low extends base.Base { oneway void low() }\n',
+                              "base.thrift": "exception Oops { 1: optional string m }\nservice Base { void ping() throws (1: Oops o) }\n"})
     add("diamond", {"prog.thrift": 'include "./l.thrift"\ninclude "./r.thrift"\nstruct U { 1: optional l.L a, 2: optional r.R b }\n',
                     "l.thrift": 'include "./base.thrift"\nstruct L { 1: optional base.B b }\n',
                     "r.thrift": 'include "./base.thrift"\nstruct R { 1: optional base.B b, 2: optional list<base.B> bs = [{"v": 1}] }\n',
